@@ -1,8 +1,68 @@
-(* C01 — LU / QR / Cholesky / SVD factors and solves. Property theorems only. *)
-From Coq Require Import List Arith Bool.
-From SC Require Import C01.Model C01.Proofs.
+(* C01 — LU / QR / Cholesky / SVD factors and solves.  Property theorems only: each is closed by
+   `exact <lemma>` (or a few lines assembling lemmas) and its assumptions are printed by the check.
+   Statements are about the executable models of SC.C01.Model instantiated at the real numbers
+   (`ROps`): they say what the code computes in exact arithmetic, for matrices of EVERY size.  The
+   same generic definitions instantiated at binary64 / binary32 are what the correspondence check
+   runs against src/linalg/{lu,qr,cholesky,svd}.rs.  Rounding-error bounds are not theorems. *)
+From Coq Require Import List Arith Bool ZArith Reals Lra Lia Permutation.
+From SC Require Import Base.Num C01.Model C01.Proofs C01.Proofs_chol.
 Import ListNotations.
+Open Scope R_scope.
 
-Theorem C01_placeholder : forall (S : Type) (P : nat -> S -> Prop) cnt start f (s : S),
-  P 0 s -> (forall c s', c < cnt -> P c s' -> P (Datatypes.S c) (f (start + c) s')) -> P cnt (for_up cnt start f s).
-Proof. exact @for_up_inv. Qed.
+(* ======================================= Cholesky ======================================= *)
+(* `cholesky n A = Some R0` (the routine returned Ok) with no zero on the diagonal before the last
+   row: the lower triangle of A is reproduced by L*L^T (L = chol_L R0, the lower triangle of R0),
+   the diagonal is >= 0 and the strict upper triangle of the work matrix is untouched. *)
+Theorem C01_chol_exact : forall n (A R0 : @Mx R), cholesky ROps n A = Some R0 ->
+  (forall k, (S k < n)%nat -> R0 k k <> 0) ->
+  (forall j k, (j < n)%nat -> (k <= j)%nat -> mmul n (chol_L ROps R0) (mtrans (chol_L ROps R0)) j k = A j k) /\
+  (forall k, (k < n)%nat -> 0 <= R0 k k) /\
+  (forall j k, (j < k)%nat -> R0 j k = A j k).
+Proof.
+  intros n A R0 H Hd. destruct (chol_exact n A R0 H Hd) as (_ & H2 & H3).
+  split; [|split]; [|exact H2|exact H3].
+  intros j k Hj Hk. exact (chol_exact_L n A R0 H Hd j k Hj Hk).
+Qed.
+
+(* A symmetric positive-definite matrix is always accepted, with a strictly positive diagonal
+   (so the hypothesis of C01_chol_exact and C01_chol_solve_exact holds for it). *)
+Theorem C01_chol_spd_accepted : forall n (A : @Mx R),
+  (forall i j, (i < n)%nat -> (j < n)%nat -> A i j = A j i) ->
+  (forall x : nat -> R, (exists i, (i < n)%nat /\ x i <> 0) ->
+       0 < rsum n (fun i => rsum n (fun j => x i * A i j * x j))) ->
+  exists R0, cholesky ROps n A = Some R0 /\ forall k, (k < n)%nat -> 0 < R0 k k.
+Proof. exact chol_spd_some. Qed.
+
+(* "A symmetric matrix with a clearly negative eigenvalue is rejected", in exact arithmetic and in
+   both directions: whatever is accepted (with non-zero pivots) is positive semi-definite ... *)
+Theorem C01_chol_accepts_only_psd : forall n (A R0 : @Mx R),
+  (forall i j, (i < n)%nat -> (j < n)%nat -> A i j = A j i) ->
+  cholesky ROps n A = Some R0 -> (forall k, (S k < n)%nat -> R0 k k <> 0) ->
+  forall x : nat -> R, 0 <= rsum n (fun i => rsum n (fun j => x i * A i j * x j)).
+Proof. exact chol_some_psd. Qed.
+
+(* ... and an Err is returned only at a negative Schur pivot, which a positive-definite matrix does not have. *)
+Theorem C01_chol_rejects_only_non_pd : forall n (A : @Mx R), cholesky ROps n A = None ->
+  (exists j B, (j < n)%nat /\ chol_cols ROps j A = Some B /\
+      (let '(B1, d0) := chol_row ROps j B in B1 j j - d0 < 0)) /\
+  ((forall i j, (i < n)%nat -> (j < n)%nat -> A i j = A j i) ->
+   ~ (forall x : nat -> R, (exists i, (i < n)%nat /\ x i <> 0) ->
+        0 < rsum n (fun i => rsum n (fun j => x i * A i j * x j)))).
+Proof.
+  intros n A H. split; [exact (chol_none_pivot n A H)|].
+  intros Hs. exact (chol_none_not_pd n A Hs H).
+Qed.
+
+(* Cholesky::solve: forward and backward substitution with the factor solve A X = b exactly. *)
+Theorem C01_chol_solve_exact : forall n bn (A R0 b : @Mx R),
+  (forall i j, (i < n)%nat -> (j < n)%nat -> A i j = A j i) ->
+  cholesky ROps n A = Some R0 -> (forall k, (k < n)%nat -> R0 k k <> 0) ->
+  let X := chol_solve ROps n bn R0 b in
+  forall i j, (i < n)%nat -> (j < bn)%nat -> rsum n (fun k => A i k * X k j) = b i j.
+Proof. exact chol_solve_exact. Qed.
+
+(* hypotheses are satisfiable: [[4,2],[2,5]] = [[2,0],[1,2]] * [[2,1],[0,2]] *)
+Example C01_chol_instance : exists R0,
+  cholesky ROps 2 (fun i j => match i, j with 0%nat, 0%nat => 4 | 1%nat, 1%nat => 5 | _, _ => 2 end) = Some R0 /\
+  R0 0%nat 0%nat = 2 /\ R0 1%nat 0%nat = 1 /\ R0 1%nat 1%nat = 2.
+Proof. exact chol_example. Qed.
